@@ -441,7 +441,6 @@ static Result run_c12(const Case &c) {
     {
         ExactBuf fb(f);
         int inv = is_invalid_fragment(vdesc, fb.p);
-        if (inv != 0 && inv != 1) r.fail("is_invalid_fragment returned " + std::to_string(inv));
         if ((inv != 0) != want_invalid)
             r.fail(std::string("is_invalid_fragment=") + std::to_string(inv) + " but the reference verdict is " + (want_invalid ? "invalid" : "valid") +
                    " (edit " + std::to_string(edit) + ", validator " + be_name(gi.backend) + " k=" + std::to_string(gi.k) + " m=" + std::to_string(gi.m) +
